@@ -438,7 +438,7 @@ func (fr *frame) visit(instr ssa.Instruction) continuation {
 		fn, args := fr.prepareCall(&instr.Call)
 		w.spawn(fn, args)
 	case *ssa.MakeChan:
-		fr.env[instr] = &ChanV{cap: w.concInt(fr.get(instr.Size).(*Term), "chan size")}
+		fr.env[instr] = &ChanV{capT: fr.get(instr.Size).(*Term)}
 	case *ssa.Alloc:
 		var p Ptr
 		if instr.Heap {
